@@ -148,8 +148,53 @@ OPS2 = [
     ('none-some', r'\bNone\b(?= *=>)', None),
     ('copied-index', r'\bdual\[0\]', ['dual[1]']),
 ]
+OPS3 = [
+    ('cond-if', r'(?<=\bif )(?!let )(?!true\b)(?!false\b)([^{}]+?)(?= \{\s*$)', ['true', 'false']),
+    ('cond-while', r'(?<=\bwhile )(?!let )([^{}]+?)(?= \{\s*$)', ['false']),
+    ('continue->break', r'\bcontinue;', ['break;']),
+    ('break->continue', r'\bbreak;', ['continue;']),
+    ('del-continue', r'^\s*continue;\s*$', ['']),
+    ('del-break', r'^\s*break;\s*$', ['']),
+    ('drop-abs', r'\.abs\(\)', ['']),
+    ('drop-sqrt', r'\.sqrt\(\)', ['']),
+    ('drop-normalize', r'\.normalize\(\)', ['']),
+    ('drop-rev', r'\.rev\(\)', ['']),
+    ('drop-skip', r'\.skip\(\w+\)', ['']),
+    ('drop-take', r'\.take\(\w+\)', ['']),
+    ('drop-powi', r'\.powi\(2\)', ['']),
+    ('drop-recip', r'\.recip\(\)', ['']),
+    ('drop-floor', r'\.floor\(\)', ['.ceil()', '']),
+    ('drop-ceil', r'\.ceil\(\)', ['.floor()', '']),
+    ('drop-clamp-min', r'\.min\(([\w\.\(\)]+)\)', ['']),
+    ('drop-clamp-max', r'\.max\(([\w\.\(\)]+)\)', ['']),
+    ('elem-minmax', r'\bmin_element\b', ['max_element']),
+    ('elem-maxmin', r'\bmax_element\b', ['min_element']),
+    ('len-len2', r'\blength\(\)', ['length_squared()']),
+    ('len2-len', r'\blength_squared\(\)', ['length()']),
+    ('dist-dist2', r'\bdistance\(', ['distance_squared(']),
+    ('dist2-dist', r'\bdistance_squared\(', ['distance(']),
+    ('axis-x-r', r'(?<=\w)\.x\b(?!\()', ['.z']),
+    ('axis-y-r', r'(?<=\w)\.y\b(?!\()', ['.x']),
+    ('axis-z-r', r'(?<=\w)\.z\b(?!\()', ['.y']),
+    ('idx0-r', r'\[0\]', ['[2]']),
+    ('idx1-r', r'\[1\]', ['[0]']),
+    ('idx2-r', r'\[2\]', ['[1]']),
+    ('tuple-0', r'(?<=\w)\.0\b(?!\.)', ['.1']),
+    ('tuple-1', r'(?<=\w)\.1\b(?!\.)', ['.0']),
+    ('unwrap-or-default', r'\.unwrap_or\(([^()]+)\)', ['.unwrap_or_default()']),
+    ('map_or-bool', r'map_or\((true|false),', None),
+    ('any-all', r'\.any\(', ['.all(']),
+    ('all-any', r'\.all\(', ['.any(']),
+    ('first-last', r'\.first\(\)', ['.last()']),
+    ('last-first', r'\.last\(\)', ['.first()']),
+    ('pop-remove0', r'\.pop\(\)', ['.pop().and_then(|_| None)']),
+    ('swap_remove', r'\.swap_remove\(', ['.remove(']),
+    ('insert-push', r'\.min_by\b', ['.max_by']),
+]
 if os.environ.get('MUTSWEEP_SET') == '2':
     OPS = OPS2
+if os.environ.get('MUTSWEEP_SET') == '3':
+    OPS = OPS3
 
 
 def gen():
@@ -178,6 +223,8 @@ def gen():
                             cands = [str(val + 1)] + ([str(val - 1)] if val > 0 else [])
                         elif name == 'some->none':
                             cands = ['None']
+                        elif name == 'map_or-bool':
+                            cands = ['map_or(%s,' % ('false' if m.group(1) == 'true' else 'true')]
                         elif name == 'plus1':
                             cands = [m.group(1) + ' + 1']
                         elif name == 'argswap':
@@ -193,7 +240,7 @@ def gen():
                             muts.append((path, ln, name, m.start(), m.end(), c))
             # statement deletion: a whole-line call / compound assignment statement
             s = code.strip()
-            if s.endswith(';') and not s.startswith(('let ', 'return', 'pub ', 'fn ', 'type ', 'const ', 'static ', '}', ')', ']')) and s.count('(') == s.count(')') and s.count('{') == s.count('}') and '=>' not in s:
+            if os.environ.get('MUTSWEEP_SET') not in ('2', '3') and s.endswith(';') and not s.startswith(('let ', 'return', 'pub ', 'fn ', 'type ', 'const ', 'static ', '}', ')', ']')) and s.count('(') == s.count(')') and s.count('{') == s.count('}') and '=>' not in s:
                 if re.match(r'[\w\.\[\]\*&\(\)]+( [\+\-\*/]?= |\.\w+\()', s) or re.match(r'\w[\w:]*\(', s):
                     muts.append((path, ln, 'delete-stmt', 0, len(text), ''))
     seen = set()
